@@ -29,6 +29,8 @@ pub struct Leaf {
     pub ls: String,
     #[serde(default)]
     pub px: String,
+    #[serde(default)]
+    pub pf: String,
 }
 
 #[derive(Debug, Clone, Copy, Default)]
@@ -350,6 +352,57 @@ pub fn mutate(leaves: &[Leaf], lo: &Located, msg: &[u8], i: usize, m: &str) -> O
             }
             let mut out = msg.to_vec();
             set_val(&mut out, leaf, loc, v);
+            Some(out)
+        }
+        m if m.starts_with("rel_") => {
+            // a backwards count (tail leaf) set relative to the length of its own group (rel_g_*) or of the group
+            // around that one (rel_e_*; the whole message when there is none): length - 4 .. length + 4
+            // on a flag leaf (pf): the flag is set and the last octet of the group it names becomes the count
+            let flag_group = if leaf.pf.is_empty() {
+                None
+            } else {
+                if get_val(msg, leaf, loc) != 0 {
+                    return None; // the genuine message already carries the count (its tail leaf has these classes)
+                }
+                Some(lo.groups.iter().find(|h| h.path.last() == Some(&leaf.pf) && is_prefix(&leaf.g, &h.path) && h.end > h.start)?)
+            };
+            let g = match flag_group {
+                Some(h) => h,
+                None => innermost_group(leaves, lo, i)?,
+            };
+            let base = (if m.starts_with("rel_g_") {
+                g.end - g.start
+            } else if m.starts_with("rel_e_") {
+                let parent = &g.path[..g.path.len() - 1];
+                match lo.groups.iter().rev().find(|h| h.path == parent && h.first_leaf <= i) {
+                    Some(h) => h.end - h.start,
+                    None => msg.len(),
+                }
+            } else {
+                return None;
+            }) as i64;
+            let suffix = &m[6..];
+            let off: i64 = match suffix.as_bytes().first()? {
+                b'0' => 0,
+                b'm' => -suffix[1..].parse::<i64>().ok()?,
+                b'p' => suffix[1..].parse::<i64>().ok()?,
+                _ => return None,
+            };
+            let v = base + off;
+            if flag_group.is_some() {
+                if !(0..=255).contains(&v) {
+                    return None;
+                }
+                let mut out = msg.to_vec();
+                set_val(&mut out, leaf, loc, max_val(leaf, loc));
+                out[g.end - 1] = v as u8;
+                return Some(out);
+            }
+            if v < 0 || v as u64 > max_val(leaf, loc) || v as u64 == get_val(msg, leaf, loc) || loc.w == 0 {
+                return None;
+            }
+            let mut out = msg.to_vec();
+            set_val(&mut out, leaf, loc, v as u64);
             Some(out)
         }
         "val_0" | "val_max" => {
